@@ -86,6 +86,24 @@ def make_probe(desc, k):
                        A.pr(A.Call(A.Prop(e(), "len", True), []))]
         exp = lines_of("<" + value + ">") + ["true", str(len(value.encode("utf-8")))]
         return {"stmts": stmts, "expect": exp, "tag": "interp_%d_slots" % len(slots), "what": "interpolated %r" % (P.render([A.ExprStmt(A.call("print", e()))]).text.strip(),)}
+    if desc[0] == "effects":
+        _, nslots, same_text = desc
+        c, nx = "cnt%d" % k, "nx%d" % k
+        pre = [A.Declare(V(c), I(0)),
+               A.FuncStmt(nx, [V("tag")], False, [A.OpAssign("+", V(c), I(1)), A.Return(A.Bin("+", V("tag"), A.Index(S("abcdefgh"), A.Bin("-", V(c), I(1)))))])]
+        parts = ["<"]
+        value = "<"
+        for i in range(nslots):
+            tag = "t" if same_text else "t%d" % i
+            parts.append(A.call(nx, S(tag)))
+            value += tag + "abcdefgh"[i]
+            parts.append("|")
+            value += "|"
+        parts.append(">")
+        value += ">"
+        stmts = pre + [A.pr(A.IStr(parts)), A.pr(V(c)), A.pr(A.IStr([A.clone(p) if isinstance(p, A.Node) else p for p in parts]))]
+        value2 = "<" + "".join(("t" if same_text else "t%d" % i) + "abcdefgh"[nslots + i] + "|" for i in range(nslots)) + ">"
+        return {"stmts": stmts, "expect": [value, str(nslots), value2], "tag": "slot_side_effects", "what": "%d slots calling a counting function (%s slot text)" % (nslots, "identical" if same_text else "distinct")}
     if desc[0] == "slotkind":
         kind = desc[1]
         bad = {"int": I(1), "null": A.Null(), "bool": A.Bool(True), "list": A.lst(S("a")), "object": A.obj(), "func": V("print"),
@@ -157,6 +175,9 @@ def run(rep, tier):
             descs.append(("interp", (0, t), (s,)))
     for kind in ("int", "null", "bool", "list", "object", "func", "lone_byte"):
         descs.append(("slotkind", kind))
+    for nslots in (1, 2, 3, 4):
+        for same in (False, True):
+            descs.append(("effects", nslots, same))
     for ch in ["a", "é", "✓", "😀", "é✓", "a😀b", "\x00", "ß日本"]:
         descs.append(("bytes", ch))
     rng.shuffle(descs)
